@@ -4,7 +4,8 @@
    [decode] = get_graphic_data on the parsed group, [m_encode]/[m_decode] =
    Measurements.__init__/get_values, [get_group(s)] = get_annotation_group(s). *)
 From Coq Require Import String ZArith List Bool.
-From HD Require Import Base.Val C18_Model C18_Proofs C18_Proofs_Meas C18_Proofs_Index C18_Proofs_General C18_Proofs_History.
+From HD Require Import Base.Val C18_Model C18_Proofs C18_Proofs_Meas C18_Proofs_Index C18_Proofs_General C18_Proofs_History
+  C18_Proofs_Parsed C18_Proofs_Object C18_Proofs_Int32.
 Import ListNotations.
 Open Scope Z_scope.
 
@@ -324,3 +325,228 @@ Example C18_example_lookup :
   get_group gs (Some 4) None = Err VE.
 Proof. repeat split; vm_compute; reflexivity. Qed.
 Print Assumptions C18_example_lookup.
+
+(* ==== extension: complete get_values, value matrix, the whole object ========================== *)
+(* ---- Measurements.get_values for EVERY requested count, constructed or parsed ------------------
+   negative count: ValueError; dense vector (nothing absent): only its own length, else
+   IndexError; sparse vector: IndexError iff a value is stored for an annotation number
+   beyond the count, otherwise the vector cut / padded with "absent" ([resize]) *)
+Theorem C18_get_values_exact : forall vs n,
+  m_decode (m_encode vs) n =
+  if n <? 0 then Err VE
+  else if existsb (is_nan false) vs
+       then (if existsb (fun p => n <? p) (positions_from 1 present vs) then Err "IndexError"%string
+             else Ok (resize n (map canon vs)))
+       else (if n =? zlen vs then Ok vs else Err "IndexError"%string).
+Proof. exact get_values_exact. Qed.
+Print Assumptions C18_get_values_exact.
+
+Theorem C18_get_values_exact_parsed : forall vs n,
+  m_decode (m_parsed (m_encode vs)) n =
+  if n <? 0 then Err VE
+  else if existsb (is_nan false) vs
+       then (if existsb (fun p => n <? p) (positions_from 1 present vs) then Err "IndexError"%string
+             else Ok (resize n (map canon vs)))
+       else (if n =? zlen vs then Ok vs else Err "IndexError"%string).
+Proof. exact get_values_exact_parsed. Qed.
+Print Assumptions C18_get_values_exact_parsed.
+
+(* what the written dataset still tells about the vector length: everything for a dense
+   vector, only a lower bound for a sparse one *)
+Theorem C18_dense_parsed_iff : forall vs n, existsb (is_nan false) vs = false ->
+  ((exists out, m_decode (m_parsed (m_encode vs)) n = Ok out) <-> n = zlen vs).
+Proof. exact dense_parsed_iff. Qed.
+Print Assumptions C18_dense_parsed_iff.
+
+Theorem C18_sparse_parsed_accepts : forall vs n, 0 <= n -> existsb (is_nan false) vs = true ->
+  (forall p, In p (positions_from 1 present vs) -> p <= n) ->
+  m_decode (m_parsed (m_encode vs)) n = Ok (resize n (map canon vs)).
+Proof. exact sparse_parsed_accepts. Qed.
+Print Assumptions C18_sparse_parsed_accepts.
+
+Theorem C18_sparse_length_not_recoverable : exists vs vs',
+  zlen vs <> zlen vs' /\ m_parsed (m_encode vs) = m_parsed (m_encode vs') /\
+  existsb (is_nan false) vs = true.
+Proof. exact sparse_length_not_recoverable. Qed.
+Print Assumptions C18_sparse_length_not_recoverable.
+
+(* get_measurements as returned (np.vstack(columns).T): n rows, one column per selected
+   measurement, entry (i, j) = value of measurement j for annotation i+1 *)
+Theorem C18_measurement_matrix_exact : forall n (ms : list (Z * list word)) name, 0 <= n ->
+  (forall m, In m ms -> zlen (snd m) = n) ->
+  let sel := filter (fun m => match name with None => true | Some q => fst m =? q end) ms in
+  exists mat, get_measurement_matrix n (map (fun m => (fst m, m_encode (snd m))) ms) name = Ok (map fst sel, mat) /\
+    zlen mat = n /\
+    forall i j m v, nth_error sel j = Some m -> nth_error (snd m) i = Some v ->
+      exists row, nth_error mat i = Some row /\ zlen row = zlen sel /\ nth_error row j = Some (canon v).
+Proof. exact measurement_matrix_exact. Qed.
+Print Assumptions C18_measurement_matrix_exact.
+
+(* ---- access order on a parsed group without the z_agree guard ------------------------------ *)
+Theorem C18_access_order_parsed_general : forall dbl gt gd e ops,
+  encode dbl gt gd = Ok e -> Forall (fun o => op_cd o = dim gd) ops ->
+  run_ops e None ops = map (answer (returned dbl gd)) ops.
+Proof. exact access_order_parsed_general. Qed.
+Print Assumptions C18_access_order_parsed_general.
+
+(* ---- the whole object ---------------------------------------------------------------------------
+   [build_full h ss]: the constructors (AnnotationGroup per [gspec], then the instance);
+   [view parsed os]: the groups as built / as parsed from the written dataset;
+   [holds parsed s o]: object o carries the identification given in s (algorithm
+   identification only when the type is not MANUAL), NumberOfAnnotations = number of arrays,
+   answers EVERY history of get_graphic_data / get_coordinates calls under its coordinate
+   type with the given coordinates (whole list, item k-1, ValueError k<1, IndexError k>n;
+   parsed: [returned] = the same with a float-constant z column written once) and every
+   get_measurements(name) with the selected names and vectors. *)
+(* constructor of one group: accepted iff number >= 1, algorithm type a member, algorithm
+   identification present unless MANUAL, graphic data admissible, every measurement vector
+   as long as the list of annotations *)
+Theorem C18_group_accepted_iff : forall s, (exists o, build_group s = Ok o) <-> group_ok s.
+Proof. exact build_group_accepts_iff. Qed.
+Print Assumptions C18_group_accepted_iff.
+
+Theorem C18_group_type_error_iff : forall s,
+  build_group s = Err "TypeError"%string <->
+  1 <= g_number (s_info s) /\ 1 <= g_algtype (s_info s) <= 2 /\ g_alg (s_info s) = None.
+Proof. exact build_group_type_error_iff. Qed.
+Print Assumptions C18_group_type_error_iff.
+
+Theorem C18_instance_accepted_iff : forall h ss,
+  (exists os, build_full h ss = Ok os) <-> Forall group_ok ss /\ header_ok h /\ numbers_ok ss.
+Proof. exact build_full_accepts_iff. Qed.
+Print Assumptions C18_instance_accepted_iff.
+
+Theorem C18_instance_errors : forall h ss k, build_full h ss = Err k -> k = VE \/ k = "TypeError"%string.
+Proof. exact build_full_errors. Qed.
+Print Assumptions C18_instance_errors.
+
+Theorem C18_instance_rejects_bad_group : forall h ss s, In s ss -> ~ group_ok s ->
+  exists k, build_full h ss = Err k.
+Proof. exact build_full_rejects_bad_group. Qed.
+Print Assumptions C18_instance_rejects_bad_group.
+
+(* every group of an accepted instance holds what was given for it, fresh and parsed *)
+Theorem C18_object_holds : forall h ss os parsed, build_full h ss = Ok os ->
+  Forall2 (holds parsed) ss (view parsed os) /\ numbered_from 1 (map o_info (view parsed os)) = true.
+Proof. exact object_holds. Qed.
+Print Assumptions C18_object_holds.
+
+(* THE property sentence: group number k of an accepted instance is found by number, and the
+   object found holds the coordinates and measurements given for group k *)
+Theorem C18_end_to_end_by_number : forall h ss os parsed k s u,
+  build_full h ss = Ok os -> 1 <= k -> nth_error ss (Z.to_nat (k - 1)) = Some s ->
+  exists o, get_group_obj (view parsed os) (Some k) u = Ok o /\ holds parsed s o /\ g_number (o_info o) = k.
+Proof. exact end_to_end_by_number. Qed.
+Print Assumptions C18_end_to_end_by_number.
+
+Theorem C18_end_to_end_number_missing : forall h ss os parsed k u,
+  build_full h ss = Ok os -> (k < 1 \/ zlen ss < k) -> get_group_obj (view parsed os) (Some k) u = Err VE.
+Proof. exact end_to_end_number_missing. Qed.
+Print Assumptions C18_end_to_end_number_missing.
+
+Theorem C18_end_to_end_by_uid : forall h ss os parsed s,
+  build_full h ss = Ok os -> NoDup (map (fun s => g_uid (s_info s)) ss) -> In s ss ->
+  exists o, get_group_obj (view parsed os) None (Some (g_uid (s_info s))) = Ok o /\ holds parsed s o.
+Proof. exact end_to_end_by_uid. Qed.
+Print Assumptions C18_end_to_end_by_uid.
+
+(* label / property / graphic type / algorithm filters return exactly the groups whose given
+   identification meets every criterion, in order, each holding its data *)
+Theorem C18_end_to_end_filter : forall h ss os parsed q, build_full h ss = Ok os ->
+  Forall2 (holds parsed) (filter (fun s => matches q (norm_info (s_info s))) ss)
+          (get_groups_obj (view parsed os) q).
+Proof. exact end_to_end_filter. Qed.
+Print Assumptions C18_end_to_end_filter.
+
+(* ---- non-vacuity of the extension ------------------------------------------------------------------ *)
+(* two groups (3-D): #1 MANUAL polygons with shared z, an algorithm identification that is
+   NOT stored, two measurements (one with an absent value); #2 AUTOMATIC polylines, varying z *)
+Definition ex_hdr : sophdr := mkH true true 1 1 true.
+Definition ex_specs : list gspec :=
+  [ mkGS (mkG 1 10 0 0 1 POLYGON 0 (Some (0, 0, 0))) false ex_poly3d_shared
+         [(0, [1065353216; 2143289344]); (1, [1073741824; 1077936128])];
+    mkGS (mkG 2 11 1 0 2 POLYLINE 2 (Some (0, 1, 0))) false ex_poly3d_varying [] ].
+
+Example C18_example_object :
+  Forall group_ok ex_specs /\ header_ok ex_hdr /\ numbers_ok ex_specs /\
+  exists os, build_full ex_hdr ex_specs = Ok os /\
+    (exists o, get_group_obj (view true os) None (Some 11) = Ok o /\ g_number (o_info o) = 2 /\
+       run_ops (o_enc o) (o_cache o) [HOne 2 3; HAll 3; HOne 3 3] =
+         [ROne (Ok (nth 1 ex_poly3d_varying [])); RAll (Ok ex_poly3d_varying); ROne (Err "IndexError"%string)]) /\
+    (exists o, get_group_obj (view true os) (Some 1) None = Ok o /\
+       get_measurement_matrix (e_n (o_enc o)) (o_ms o) None =
+         Ok ([0; 1], [[1065353216; 1073741824]; [2143289344; 1077936128]]) /\
+       get_measurement_matrix (e_n (o_enc o)) (o_ms o) (Some 1) = Ok ([1], [[1073741824]; [1077936128]])) /\
+    map (fun o => g_number (o_info o))
+        (get_groups_obj (view false os) (mkQ None None None None None (Some 0) None None)) = [2] /\
+    build_full ex_hdr (tl ex_specs) = Err VE /\
+    build_full (mkH true false 2 1 true) ex_specs = Err VE /\
+    build_full ex_hdr [mkGS (mkG 1 10 0 0 1 POLYLINE 1 None) false ex_poly3d_varying []] = Err "TypeError"%string /\
+    build_full ex_hdr [mkGS (mkG 1 10 0 0 1 POLYLINE 0 None) false ex_poly3d_varying [(0, [1065353216])]] = Err VE.
+Proof.
+  split.
+  { apply Forall_forall. intros s Hs. apply build_group_accepts_iff.
+    cbn [ex_specs In] in Hs. destruct Hs as [<-|[<-|[]]]; eexists; vm_compute; reflexivity. }
+  split; [apply sop_header_ok_iff; vm_compute; reflexivity|].
+  split; [intros i s Hs; destruct i as [|[|[|i]]]; cbn in Hs; inversion Hs; subst; reflexivity|].
+  eexists. split; [vm_compute; reflexivity|].
+  split; [eexists; split; [vm_compute; reflexivity|split; vm_compute; reflexivity]|].
+  split; [eexists; split; [vm_compute; reflexivity|split; vm_compute; reflexivity]|].
+  split; [vm_compute; reflexivity|].
+  split; [vm_compute; reflexivity|].
+  split; [vm_compute; reflexivity|].
+  split; vm_compute; reflexivity.
+Qed.
+Print Assumptions C18_example_object.
+
+Example C18_example_get_values :
+  (* [1.0; NaN; 2.0; NaN] parsed: 3, 4, 6 annotations accepted (cut / padded), 2 refused *)
+  let m := m_parsed (m_encode [1065353216; 2143289344; 1073741824; 4290774085]) in
+  m_decode m 3 = Ok [1065353216; 2143289344; 1073741824] /\
+  m_decode m 4 = Ok [1065353216; 2143289344; 1073741824; 2143289344] /\
+  m_decode m 6 = Ok [1065353216; 2143289344; 1073741824; 2143289344; 2143289344; 2143289344] /\
+  m_decode m 2 = Err "IndexError"%string /\ m_decode m (-1) = Err VE /\
+  resize 3 [5; 6; 7; 8] = [5; 6; 7] /\
+  m_decode (m_parsed (m_encode [1065353216; 1073741824])) 3 = Err "IndexError"%string.
+Proof. repeat split; vm_compute; reflexivity. Qed.
+Print Assumptions C18_example_get_values.
+
+(* ---- int32 arithmetic of the index list ---------------------------------------------------------
+   [point_index_list32]: LongPrimitivePointIndexList as numpy accumulates it, in wrapping
+   int32; it is the unbounded list of the round-trip theorems for every group that stores
+   fewer than 2^31 - 1 coordinate values, every entry is an int32, and beyond the bound the
+   lists do differ *)
+Theorem C18_index_list_int32_exact : forall sd (gd : list annot), 0 <= sd ->
+  sd * zlen (concat gd) < 2147483647 -> point_index_list32 sd gd = point_index_list sd gd.
+Proof. exact index_list32_exact_rows. Qed.
+Print Assumptions C18_index_list_int32_exact.
+
+Theorem C18_index_list_int32_in_range : forall spans i,
+  In i (index_list32_of_spans spans) -> -2147483648 <= i < 2147483648.
+Proof. exact index_list32_in_range. Qed.
+Print Assumptions C18_index_list_int32_in_range.
+
+Theorem C18_index_list_int32_wraps_beyond : exists spans, Forall (fun x => 0 <= x) spans /\
+  sumz spans = 2147483647 + 2 /\
+  index_list32_of_spans spans <> 1 :: removelast (map (fun c => c + 1) (cumsum_from 0 spans)).
+Proof. exact index_list32_wraps_beyond. Qed.
+Print Assumptions C18_index_list_int32_wraps_beyond.
+
+(* ---- from_dataset guards ------------------------------------------------------------------------- *)
+Theorem C18_parse_guard_accepts_iff : forall p,
+  parse_sop_guard p = Ok tt <-> exists fm, p = PDataset true fm /\ fm <> Some false.
+Proof. exact parse_guard_accepts_iff. Qed.
+Print Assumptions C18_parse_guard_accepts_iff.
+
+Theorem C18_parse_guard_errors : forall p k, parse_sop_guard p = Err k ->
+  (k = "TypeError"%string /\ p = PNotDataset) \/ (k = VE /\ p <> PNotDataset).
+Proof. exact parse_guard_errors. Qed.
+Print Assumptions C18_parse_guard_errors.
+
+Example C18_example_int32 :
+  point_index_list32 3 ex_poly3d_varying = [1; 7] /\ point_index_list 3 ex_poly3d_varying = [1; 7] /\
+  3 * zlen (concat ex_poly3d_varying) < 2147483647 /\
+  cumsum32_from 0 [2147483646; 2; 1] = [2147483646; -2147483648; -2147483647] /\
+  parse_sop_guard (PDataset true None) = Ok tt /\ parse_sop_guard (PDataset true (Some false)) = Err VE.
+Proof. repeat split; vm_compute; reflexivity. Qed.
+Print Assumptions C18_example_int32.
